@@ -227,13 +227,14 @@ CHECKS = {
    note=TB + "os.Root confinement (symlinks etc.) is the standard library's and is trusted; Unix only (filepath.Separator = '/').",
    technique="Lean 4 proof (path.Clean characterisation, validator ⇔ safe-name spec, confinement of tried file names) + exhaustive small-alphabet differential check",
    ref="DESIGN.md section 5 C19"),
- "C20": dict(engine="rec+codecs",
+ "C20": dict(engine="rec+codecs+writer",
    text="Lean 4 theorems about galene's own glue in the recorder (gap/fetch logic over all delivery orders with gaps < 256 incl. duplicates and reordering: every seqno "
         "after the first that is delivered or available in the cache is pushed; exactly what is handed to the sample builder, byte-identical to what was sent; block-time "
         "monotonicity for a fixed origin; shared A/V origin: C20_adjustOrigin_same_instant / _sync_kept — adjustOrigin moves every track's origin by one common duration, up to one tick "
         "of its own clock, with the proved counterexample seeded_rate_breaks_sync for a wrong clock rate; rtptime round trips), tied to diskwriter by a differential run through the real "
         "Client.PushConn/diskTrack.Write/SetTimeOffset/Close with pion payloaders and a real packetcache (incl. paced real-time cases for the arrival-based origin and six H.264 "
-        "keyframe layouts), and codecs.Keyframe by the codecs engine; frame assembly (jech/samplebuilder, pion depacketizers) and the "
+        "keyframe layouts), and codecs.Keyframe by the codecs engine; the keyframe replay for a recorder attached in mid-stream (sendSequence): C20_replay_complete — every cached packet "
+        "from the keyframe to the newest one inclusive is written, in order (a replay that stops short leaves a hole the recorder never fetches when a live packet overtakes it), tied by op sendseq of the writer engine; frame assembly (jech/samplebuilder, pion depacketizers) and the "
         "container (ebml-go) are third-party: that part of C20 (complete frames, no duplicates/reordering, nothing missing, well-formed file, flush on stop) is "
         "correspondence-only — exploration level, by file read-back with ebml-go",
    note=TB + "PARTIAL by design: proof for galene's glue, exploration for the library part. Builder pops and the wall clock are observed inputs of the (transducer) model; the "
